@@ -40,6 +40,9 @@ Fixpoint bal (a d : string) (l : ledger) : Z :=
   end.
 Definition set_bal (a d : string) (z : Z) (l : ledger) : ledger := (a, d, z) :: l.
 
+(* bech32 is case-insensitive as a whole string: a message may spell its sender in upper case.  The bank account is
+   the decoded address (here: the lower-case spelling), the layer2 records are keyed by the spelling as sent *)
+Definition acct (u : string) : string := to_lower u.
 Definition MOD : string := "#layer2".       (* the layer2 module account *)
 Definition SPEND : string := "#spending".   (* the spending module account *)
 Definition SUPPLY : string := "#supply".    (* pseudo account: total supply per denom *)
@@ -113,7 +116,7 @@ Fixpoint pay_all (skip_nonpos : bool) (cs : bonds_t) (l : ledger) : outcome ledg
   match cs with
   | [] => Ok l
   | e :: r => if (skip_nonpos && (snd e <=? 0))%bool then pay_all skip_nonpos r l
-              else do l1 <- send MOD (snd (fst e)) UKEX (snd e) l; pay_all skip_nonpos r l1
+              else do l1 <- send MOD (acct (snd (fst e))) UKEX (snd e) l; pay_all skip_nonpos r l1
   end.
 Definition refund (v : variant) (n : string) (st : state) : outcome state :=
   let cs := covered v n (bonds st) in
@@ -179,7 +182,7 @@ Definition create (v : variant) (c : config) (st : state) (u : string) (priv for
   if (negb priv && (amt * 100 <? min_thr c))%bool then Err "low amount" else
   if (negb (v_create_unchecked v) && (max_thr c <? amt))%bool then Err "max dapp bond reached" else
   if (negb (v_prefix v) && String.eqb n "")%bool then Err "empty dapp name" else
-  do l <- (if 0 <? amt then send u MOD UKEX amt (led st) else Ok (led st));
+  do l <- (if 0 <? amt then send (acct u) MOD UKEX amt (led st) else Ok (led st));
   if (match find_dapp n (dapps st) with Some _ => negb (String.eqb n "") | None => false end) then Err "dapp already exists" else
   let d := mkDapp n amt 0 (now st) (p_lp p) (p_lp_ok p) (p_ratio p) (p_premint p) (p_postmint p) (p_fee p) (p_team p)
                   (mkX 0 (p_drip p) 0 (p_bv p)) in
@@ -196,7 +199,7 @@ Definition bond (c : config) (st : state) (u n : string) (foreign : bool) (amt :
     if foreign then Err "invalid dapp bond denom" else
     let t := d_total d + amt in
     if max_thr c <? t then Err "max dapp bond reached" else
-    do l <- send u MOD UKEX amt (led st);
+    do l <- send (acct u) MOD UKEX amt (led st);
     let a := if has_bond n u (bonds st) then bond_amt n u (bonds st) + amt else amt in
     Ok (mkState (now st) (set_dapp (with_total d t) (dapps st)) (set_bond n u a (bonds st)) l)
   end.
@@ -209,7 +212,7 @@ Definition reclaim (st : state) (u n : string) (foreign : bool) (amt : Z) : outc
     if foreign then Err "invalid dapp bond denom" else
     if bond_amt n u (bonds st) <? amt then Err "not enough user dapp bond" else
     if d_total d - amt <? 0 then Panic "negative coin amount" else
-    do l <- send MOD u UKEX amt (led st);
+    do l <- send MOD (acct u) UKEX amt (led st);
     Ok (mkState (now st) (set_dapp (with_total d (d_total d - amt)) (dapps st))
                 (set_bond n u (bond_amt n u (bonds st) - amt) (bonds st)) l)
   end.
@@ -286,13 +289,13 @@ Inductive op : Type :=
 Definition burn_tx (st : state) (u den : string) (amt : Z) (registered : bool) : outcome state :=
   if negb registered then Err "token not registered" else
   if amt <? 0 then Panic "negative coin amount" else
-  do l1 <- send u MOD den amt (led st);
+  do l1 <- send (acct u) MOD den amt (led st);
   do l2 <- burn den amt l1;
   Ok (mkState (now st) (dapps st) (bonds st) l2).
 Definition mint_ft (c : config) (st : state) (u : string) (fresh : bool) : outcome state :=
   let fee := as_int64 (c_ft_fee c) in
   if fee <? 0 then Panic "negative coin amount" else
-  do l1 <- send u MOD UKEX fee (led st);
+  do l1 <- send (acct u) MOD UKEX fee (led st);
   do l2 <- burn UKEX fee l1;
   (* `info := tk.GetTokenInfo(ctx, denom); if info.Denom != ""`: for a new denomination info is nil -- the
      message panics and can never succeed *)
@@ -305,15 +308,15 @@ Definition mint_issue (st : state) (u den : string) (amt : Z) (reg : bool) (owne
             do m <- dmul_int rate amt;
             let fee := trunc_int m in
             if fee <? 0 then Panic "negative coin amount" else
-            if 0 <? fee then (if String.eqb owner "" then send u MOD UKEX fee (led st) else send u owner UKEX fee (led st))
+            if 0 <? fee then (if String.eqb owner "" then send (acct u) MOD UKEX fee (led st) else send (acct u) (acct owner) UKEX fee (led st))
             else Err "not able to mint coins without fee");
   if amt <? 0 then Panic "negative coin amount" else
   if (0 <? cap) && (cap <? tsup + amt) then Err "cannot exceed token cap" else
   do l2 <- mint den amt l1;
-  do l3 <- send MOD u den amt l2;
+  do l3 <- send MOD (acct u) den amt l2;
   Ok (mkState (now st) (dapps st) (bonds st) l3).
 Definition bank_send (st : state) (u to den : string) (amt : Z) : outcome state :=
-  do l <- send u to den amt (led st); Ok (mkState (now st) (dapps st) (bonds st) l).
+  do l <- send (acct u) (acct to) den amt (led st); Ok (mkState (now st) (dapps st) (bonds st) l).
 
 (* the operator records are kept as pseudo balances: account "#vf/"+dApp, denom = operator *)
 Definition VF (n : string) : string := ("#vf/" ++ n)%string.
@@ -327,7 +330,7 @@ Definition join_verifier (c : config) (st : state) (u interx n : string) : outco
     do m <- dmul (dec_of_int (dep + d_postmint d + d_premint d)) (c_vbond c);
     let a := round_int m in
     if (a <? 0) || negb (d_lp_ok d) then Panic "invalid coin" else
-    do l1 <- (if 0 <? a then send interx MOD (d_lp d) a (led st) else Ok (led st));
+    do l1 <- (if 0 <? a then send (acct interx) MOD (d_lp d) a (led st) else Ok (led st));
     Ok (mkState (now st) (dapps st) (bonds st) (set_bal (VF n) u 1 l1))
   end.
 (* ApplyUpsertDappProposal *)
